@@ -65,6 +65,24 @@ CHECKS = {
         note="Trusted: reference matcher, predicted stream (checked against JASM in C08-C10), Hypothesis. Empty matches of nullable rules are not judged here.",
         ref="DESIGN.md 4/C07",
     ),
+    "C11": dict(
+        cat="exploration",
+        technique="property-based testing (Hypothesis): small-alphabet listings with adjacent/overlapping candidates, scan-validity oracle over the reference matcher's span set; long-listing family",
+        text="Non-nullable rules over a 2-3 letter alphabet of instructions on random words over the same alphabet, so overlapping and adjacent candidate occurrences are "
+        "the norm; the reported list must be increasing, non-overlapping, genuine, start at the leftmost candidate and leave no candidate start in any gap or after "
+        "the last match; first-match mode must equal the one-element prefix. A deterministic family of 33k-70k instruction listings with occurrences at and around "
+        "multiples of 32768 is added (1 in quick, 3 in thorough).",
+        note="Trusted: reference matcher's span set (complete set of ends per start), Hypothesis. Nullable rules are excluded as the statement says.",
+        ref="DESIGN.md 4/C11",
+    ),
+    "C12": dict(
+        cat="exploration",
+        technique="property-based testing (Hypothesis): metamorphic agreement of the 8 result modes on generated rule/listing pairs (modes enumerated exhaustively per pair)",
+        text="Every generated (rule, listing) pair from the broadest generator is run in all 2x2x2 mode combinations; the relations bool == non-empty list, first == prefix "
+        "of all, address-only == address prefix of the full text element by element, and mode-independence of the verdict (and of failure) are checked. No reference model is needed.",
+        note="Trusted: Hypothesis and the harness's bookkeeping only. Exhaustive over modes, sampled over inputs.",
+        ref="DESIGN.md 4/C12",
+    ),
 }
 
 NOT_APPLICABLE = []
